@@ -1,12 +1,12 @@
 EXPLANATION = ('C20: the parsing kernels that touch untrusted bytes are executed on arbitrary byte strings with the memory checks of the executor as oracle (bounds, use after free/scope, invalid free, '
   'division by zero, unreachable, abort/terminate) plus "returns or throws an exception derived from std::exception": Parser.cpp str:: layer, RawRecord tokeniser, star tokens / value tokens, '
   'and the unformatted Eclipse readers (header incl. X231/C0nn, arrays with an untrusted element count on arbitrary bytes); Parser::parseString as a whole (ParserState, keyword recognition, INCLUDE/PATHS handling, '
-  'ParserKeyword::parse, error path with nested exceptions) on a keyword prefix followed by arbitrary bytes, with the real generated keyword definitions of INCLUDE, PATHS, DIMENS, TITLE, END, ENDINC.')
-BOUNDS = 'deck text: every byte string (all 256 values) of up to 4 bytes (thorough: 6) per kernel; whole parser: prefix + every byte string of up to 3 bytes (thorough: 4) + suffix for 5 prefixes; result files: every 24/48-byte header image, every array body of 12/20 bytes with an arbitrary 64-bit element count'
+  'ParserKeyword::parse, error path with nested exceptions) on a keyword prefix followed by arbitrary bytes, with the real generated keyword definitions of INCLUDE, PATHS, DIMENS, TITLE, PORO, END, ENDINC.')
+BOUNDS = 'deck text: every byte string (all 256 values) of up to 4 bytes (thorough: 6) per kernel; whole parser: prefix + every byte string of up to 3 bytes (thorough: 4) + suffix for 6 prefixes; result files: every 24/48-byte header image, every array body of 12/20 bytes with an arbitrary 64-bit element count'
 OUTSIDE = 'EclipseState/Schedule/SummaryConfig construction from an accepted deck, keywords other than the six added to the parser, ParseContext actions other than THROW_EXCEPTION (EXIT1 calls std::exit by design), INCLUDE files that exist, formatted result files, inputs longer than the bound, stack exhaustion by deep INCLUDE nesting, allocation failure'
 ASSUMPTIONS = ['line/record views are sub-views of a NUL-terminated std::string buffer (the loader appends a newline): view.end() is dereferenceable', 'operator new never fails; an allocation with a symbolic size is an object of exactly that size',
                'std::istream::read on the in-memory file leaves the destination untouched beyond the bytes available (as the standard specifies)']
-PARSE_KWS = ("INCLUDE", "PATHS", "FIRSTLINE", "DIMENS", "TITLE")          # whole-parser jobs (h_parse.cpp)
+PARSE_KWS = ("INCLUDE", "PATHS", "FIRSTLINE", "DIMENS", "TITLE", "PORO")          # whole-parser jobs (h_parse.cpp)
 def jobs(tier):
     n = 4 if tier == 'quick' else 6
     out = []
@@ -33,6 +33,6 @@ def jobs(tier):
           'opm/input/eclipse/Units/%s.cpp' % n for n in ('UnitSystem', 'Dimension')] + [
           'opm/common/%s.cpp' % n for n in ('OpmLog/OpmLog', 'OpmLog/Logger', 'OpmLog/LogUtil', 'OpmLog/KeywordLocation', 'utility/OpmInputError', 'utility/String', 'utility/shmatch')] + ['opm/input/eclipse/Python/Python.cpp', 'opm/input/eclipse/Python/PythonInterp.cpp', '_build/ParserKeywords/I.cpp', '_build/ParserKeywords/P.cpp', '_build/ParserKeywords/D.cpp', '_build/ParserKeywords/E.cpp', '_build/ParserKeywords/T.cpp']
     for kw in PARSE_KWS:
-        out.append(dict(name='parse_' + kw.lower(), src='h_parse.cpp', defs={'HN': 3 if (tier == 'quick' or kw == 'TITLE') else 4, 'KWID': {'INCLUDE': 0, 'PATHS': 1, 'FIRSTLINE': 2, 'DIMENS': 3, 'TITLE': 4}[kw]}, entry='h_parse_builtin', tus=PT, fp='real', loopmax=2000, maxsteps=400000000, timeout=900 if tier == 'quick' else 7200, opts=['--ctors'],
+        out.append(dict(name='parse_' + kw.lower(), src='h_parse.cpp', defs={'HN': 3 if (tier == 'quick' or kw == 'TITLE') else 4, 'KWID': {'INCLUDE': 0, 'PATHS': 1, 'FIRSTLINE': 2, 'DIMENS': 3, 'TITLE': 4, 'PORO': 5}[kw]}, entry='h_parse_builtin', tus=PT, fp='ieee' if kw == 'PORO' else 'real', loopmax=2000, maxsteps=400000000, timeout=900 if tier == 'quick' else 7200, opts=['--ctors'],
                         bounds='Parser(false).parseString("%s\\n" + <= 3 (thorough: 4; TITLE: 3 - four bytes ran for more than 80 minutes without finishing) arbitrary bytes + "\\n")' % kw))
     return out
